@@ -106,25 +106,26 @@ type readMark struct {
 
 // harness state is only touched with the conn mutex held (OnMsg, Input, OnEvent, conn.Do).
 type harness struct {
-	s            Session
-	srv          *ncsim.Server
-	cur          int // call in progress, -1 between calls
-	maxWrites    int // transport writes per call: 2 (1.0) or 3 (1.1)
-	sc           *slowConn
-	writesInCall int
-	recs         []callRec
-	lastID       int
-	prevOutcome  string
-	idBadKey     string
-	idBadDetail  string
-	stray        int
-	prevBig      bool // the last server message was a reply of >= bigReply bytes ...
-	prevEnd      int  // ... ending at this stream offset
-	bigSent      int
-	bigThenReply int
-	bigThenNotif int
-	notifs       int
-	reads        []readMark
+	s                        Session
+	srv                      *ncsim.Server
+	cur                      int // call in progress, -1 between calls
+	maxWrites                int // transport writes per call: 2 (1.0) or 3 (1.1)
+	sc                       *slowConn
+	writesInCall             int
+	recs                     []callRec
+	lastID                   int
+	prevOutcome              string
+	idBadKey                 string
+	idBadDetail              string
+	stray                    int
+	prevBig                  bool // the last server message was a reply of >= bigReply bytes ...
+	prevEnd                  int  // ... ending at this stream offset
+	bigSent                  int
+	bigThenReply             int
+	bigThenNotif             int
+	notifs                   int
+	bigReqs, bigReqsJustPast int // requests longer than 16 384 bytes / with length % 16384 in 1..5
+	reads                    []readMark
 }
 
 // dev wraps the server model so that held replies can be released between two transport writes
@@ -301,6 +302,12 @@ func (h *harness) onMsg(_ *ncsim.Server, c *devsim.Conn, m *ncsim.Msg) {
 		return
 	}
 	rc.reqID = m.ID
+	if l := len(m.Payload); l > 16384 {
+		h.bigReqs++
+		if l%16384 >= 1 && l%16384 <= 5 {
+			h.bigReqsJustPast++
+		}
+	}
 	call := h.s.Calls[k]
 	rc.payload = buildPayload(call, m.ID)
 	if h.s.Version == "1.1" {
@@ -934,6 +941,9 @@ func RunSession(s Session) mon.Result {
 			if call.Collide == "hash-line" {
 				obs["success_reply_with_hash_hash_data_line"]++
 			}
+			if call.OneLine && len(rc.payload) >= 65536 {
+				obs["success_one_line_reply_of_64KiB_or_more"]++
+			}
 			if call.OneLine {
 				obs["success_one_line_reply"]++
 				if call.NoNL {
@@ -1119,6 +1129,13 @@ func RunSession(s Session) mon.Result {
 		}
 		gen = conn.Generated()
 		obs["big_replies_sent"] = int64(h.bigSent)
+		if h.bigReqs > 0 {
+			obs["requests_over_16384_bytes"] = int64(h.bigReqs)
+			obs["requests_with_length_mod_16384_in_1_to_5"] = int64(h.bigReqsJustPast)
+			if s.Echo {
+				obs["requests_with_length_mod_16384_in_1_to_5_on_echoing_transport"] = int64(h.bigReqsJustPast)
+			}
+		}
 		if clog != nil {
 			obs["channel_log_sessions"] = 1
 			obs["channel_log_writes"] = atomic.LoadInt64(&clog.writes)
@@ -1194,7 +1211,8 @@ func RunSession(s Session) mon.Result {
 		tags = append(tags, t)
 	}
 	critD := s.Profile == "forced" && obs["reply_filed_while_caller_held"] > 0 && obs["success_verified"] > 0
-	nontrivial := obs["requests_seen"] >= 3 && (critA || critB || critC || critD)
+	critE := s.Echo && obs["requests_with_length_mod_16384_in_1_to_5"] > 0 && obs["success_verified"] > 0
+	nontrivial := obs["requests_seen"] >= 3 && (critA || critB || critC || critD || critE)
 	return mon.Result{Verdict: mon.Held, NonTrivial: nontrivial, Obs: obs, Tags: tags,
 		Sample: map[string]interface{}{
 			"config":    fmt.Sprintf("v=%s echo=%v noechomark=%v seg=%s/%d profile=%s", s.Version, s.Echo, s.NoEchoMark, s.Seg.Mode, s.Seg.Size, s.Profile),
@@ -1266,7 +1284,7 @@ func init() {
 			"caller's 150 ms deadline, channel read delay default..50 ms; the straddling call is judged only as own-reply-or-timeout); x {1.0,1.1} x {no echo, echo with marks, echo sharing reads with the reply} x segmentation " +
 			"(fixed 1,3,17,4096, whole, geom, mix) x chunkings of 1.1 replies (incl. boundaries inside message-id=\"...\") x bodies that quote a foreign message-id=\"N\" as text. " +
 			"Non-trivial = the server saw >=3 requests and (a late reply had been delivered in full before a later call returned, or a verified success " +
-			"followed a timed-out call, or a verified success whose reply had a chunk boundary inside the message-id attribute, or a forced schedule in which the reply was filed while the caller was held before its wait). Distinct = descriptor hash.",
+			"followed a timed-out call, or a verified success whose reply had a chunk boundary inside the message-id attribute, or a forced schedule in which the reply was filed while the caller was held before its wait, or verified successes on an echoing transport for requests just past a multiple of 16 384 bytes). Distinct = descriptor hash.",
 		Assumptions: []string{
 			"one transport read never carries bytes of two server messages (message marks after every reply and every released late reply; quantifier of C08); " +
 				"the echo of the client's own request is not a server message: in half of the echoing sessions it carries no mark, so one read may hold the tail of the echo (delimiter, returns) and part or all of the reply that follows",
@@ -1278,8 +1296,10 @@ func init() {
 			"tty line discipline (a third of the sessions): every LF of the server->client stream (framing, data, echo) is delivered as CR LF by a transport wrapper in this package, with extra read boundaries between the CR and its LF (none / framing pairs / random / every pair); chunk sizes count the bytes as the server sent them (LF form), results are compared with the LF form",
 			"a fixed 1/7 of the replies is ONE line of 1-5 kB (no newline in the payload; 1.0: with or without a newline behind ]]>]]>), in every segmentation",
 			"a fixed 1/7 of the sessions has a channel log (options.WithChannelLog) whose sink refuses the k-th / every k-th write, writes short, or is capped at 300-4300 bytes; the library documents that channel log errors are ignored, so replies must be unaffected",
-			"profile idle: a call that gets its reply within a 250-400 ms timeout, then the session is left alone for that timeout plus 150-300 ms, then the next call; a planned-now call that returns a timeout error before half its timeout has elapsed is judged like any timed-out planned-now call, after waiting (<= 1 s) for its reply to be delivered; workers run with GODEBUG=asynctimerchan=1 (what a main module with a go line below 1.23 gets; /verif/go.mod says go 1.20)",
+			"profile idle: a call that gets its reply within a 350-550 ms timeout, then the session is left alone for that timeout plus 150-300 ms, then the next call; a planned-now call that returns a timeout error before half its timeout has elapsed is judged like any timed-out planned-now call, after waiting (<= 1 s) for its reply to be delivered; workers run with GODEBUG=asynctimerchan=1 (what a main module with a go line below 1.23 gets; /verif/go.mod says go 1.20)",
 			"a fixed share of the replies in sessions with whole / >=4096-byte reads, no unmarked echo, no tty cuts carries a data line that reads exactly '##': the model hands such a reply over in ONE read (checked against the event log), where the pinned library files it whole; a read boundary behind the inner line is the known C02 frame-boundary finding and is not generated here",
+			"profile bigreq: eight edit-config requests whose serialized length runs through m*16384-2 .. m*16384+5 (m = 1..4), echoing and non-echoing transports; as everywhere the Result is compared with the server's reply body, not only with the id",
+			"half of the big replies of profile big are ONE line of 64-300 KB (1.1: sent as one chunk), a quarter of those within +-350 bytes of the 64 KiB mark",
 			"a planned-now reply is sent either the moment the request is complete (before the echo of the trailing return) or after the call's last transport write (nothing follows the reply)",
 			"the server answers with message-id=\"N\" in double quotes, N the id of the request, and replies never precede the complete request",
 			"random reply bodies and request arguments contain none of: ']]>]]>', '#', '</rpc>', 'message-id', 'subscription-id' (checked by brute force by the generator); " +
